@@ -76,6 +76,7 @@ structure NInv (n : Node) (a : Addr) : Prop where
   pidx : ∀ i id, alookup i n.p.pindexes = some id →
     ∃ hh, alookup a n.p.vpnIps = some hh ∧ hh.id = id ∧ hh.localIndex = i ∧ hh.ready = true
   disj : ∀ i, (alookup i n.p.pindexes).isSome = true → alookup i n.main.indexes = none
+  pdlok : ∀ id, id ∈ n.pdl → id < n.p.nextObj ∧ ∀ e, e ∈ n.p.vpnIps → id ≠ e.2.id
 
 /-- distinct listed tunnels have distinct abstractions (their local indexes differ) -/
 theorem absTun_inj {n : Node} {a : Addr} (inv : NInv n a) {x y : HostInfo} (hx : x ∈ n.main.getList a)
@@ -91,7 +92,9 @@ theorem NInv.shrink {n n' : Node} {a : Addr} (inv : NInv n a)
     (hp : n'.p.vpnIps = n.p.vpnIps ∧ n'.p.pindexes = n.p.pindexes ∧ n'.p.nextObj = n.p.nextObj)
     (hb : n'.blocked = n.blocked)
     (wf : MWF n'.main a) (hsub : ∀ h, h ∈ n'.main.getList a → h ∈ n.main.getList a)
-    (hidx : ∀ i, alookup i n.main.indexes = none → alookup i n'.main.indexes = none) : NInv n' a := by
+    (hidx : ∀ i, alookup i n.main.indexes = none → alookup i n'.main.indexes = none)
+    (hpd : ∀ id, id ∈ n'.pdl → id ∈ n.pdl ∨ ∃ h, h ∈ n.main.getList a ∧ h.id = id := by exact fun _ h => Or.inl h) :
+    NInv n' a := by
   obtain ⟨hp1, hp2, hp3⟩ := hp
   constructor
   · exact wf
@@ -104,6 +107,12 @@ theorem NInv.shrink {n n' : Node} {a : Addr} (inv : NInv n a)
   · rw [hp1]; exact inv.one
   · rw [hp1, hp2]; exact inv.pidx
   · intro i hi; rw [hp2] at hi; exact hidx i (inv.disj i hi)
+  · intro id hid
+    rw [hp1, hp3]
+    rcases hpd id hid with h | ⟨h, hm, e⟩
+    · exact inv.pdlok id h
+    · subst e
+      exact ⟨inv.idlt h hm, fun e he => (inv.pkeys e he).2.2.2 h hm⟩
 
 theorem absPending_congr {p p' : PSide} (a : Addr) (h : p'.vpnIps = p.vpnIps) : absPending p' a = absPending p a := by
   unfold absPending; rw [h]
@@ -271,6 +280,13 @@ theorem startHandshake_sim {n : Node} {a : Addr} {sd : Side} (inv : NInv n a) (s
         obtain ⟨hh, h1, _⟩ := inv.pidx i id hi
         rw [hl] at h1; simp at h1
       · exact inv.disj
+      · intro id hid
+        have := (inv.pdlok id hid).1
+        refine ⟨by show id < n.p.nextObj + 1; omega, ?_⟩
+        intro e' he'
+        simp only [List.mem_singleton] at he'
+        subst he'
+        simp only [k.id]; omega
   · have hl : alookup a n.p.vpnIps = some hh := by rw [hv]; simp [alookup]
     have e : n.p.startHandshake n.cfg a cb = { n.p with vpnIps := [(a, cb hh)] } := by
       unfold PSide.startHandshake PSide.setPending; simp only [hl]; simp [hv, k.id]
@@ -295,6 +311,12 @@ theorem startHandshake_sim {n : Node} {a : Addr} {sd : Side} (inv : NInv n a) (s
         rw [hl] at h1; simp at h1; subst h1
         exact ⟨cb hh, alookup_single _ _, by rw [k.id]; exact h2, by rw [k.li]; exact h3, by rw [k.ready]; exact h4⟩
       · exact inv.disj
+      · intro id hid
+        refine ⟨(inv.pdlok id hid).1, ?_⟩
+        intro e' he'
+        simp only [List.mem_singleton] at he'
+        subst he'
+        simp only [k.id]; exact (inv.pdlok id hid).2 _ hmem
 
 /-! ### connection manager: traffic check -/
 
@@ -316,6 +338,16 @@ def markA (pd : Bool) (A : List Tun) (t : Tun) : List Tun :=
 
 def markB (pd : Bool) (B : List Nat) (i : Nat) : List Nat :=
   if pd then (if B.contains i then B else i :: B) else B.filter (· != i)
+
+theorem mem_markB {pd : Bool} {B : List Nat} {i id : Nat} (h : id ∈ markB pd B i) : id ∈ B ∨ id = i := by
+  unfold markB at h
+  split at h
+  · split at h
+    · exact Or.inl h
+    · rcases List.mem_cons.mp h with e | e
+      · exact Or.inr e
+      · exact Or.inl e
+  · exact Or.inl (List.mem_filter.mp h).1
 
 /-- the pendingDeletion marks after a check of `hi`, on both levels -/
 theorem pdl_step {n : Node} {a : Addr} (inv : NInv n a) {A : List Tun} {B : List Nat}
@@ -386,7 +418,8 @@ theorem check_sim {n : Node} {a : Addr} {sd peer : Side} (inv : NInv n a) (sr : 
     have hpdl := pdl_step inv sr.pdl hmem (Nebula.ConnMgr.trafficDecision (checkIn sd peer j (absTun hi) inT outT)).pd
     simp only [Side.check, htj, hci]
     generalize Nebula.ConnMgr.trafficDecision (checkIn sd peer j (absTun hi) inT outT) = o at hnc hpdl ⊢
-    -- the node with the new marks
+    have hpdm : ∀ id, id ∈ markB o.pd n.pdl hi.id → id ∈ n.pdl ∨ ∃ h, h ∈ n.main.getList a ∧ h.id = id :=
+      fun id h => (mem_markB h).imp (fun x => x) (fun e => ⟨hi, hmem, e.symm⟩)
     cases hd : o.decision with
     | closeTunnel => exact absurd hd hnc
     | deleteTunnel =>
@@ -414,9 +447,9 @@ theorem check_sim {n : Node} {a : Addr} {sd peer : Side} (inv : NInv n a) (sr : 
           simp [sideDel, List.mem_filter, hne h hm]
       by_cases hf : n.main.deleteIsFinal hi = true
       · simp only [hf, if_true]
-        exact ⟨srn _ rfl rfl rfl rfl, inv.shrink ⟨rfl, rfl, rfl⟩ rfl hdl.2 hsub (fun i hi' => deleteHostInfo_none i hi')⟩
+        exact ⟨srn _ rfl rfl rfl rfl, inv.shrink ⟨rfl, rfl, rfl⟩ rfl hdl.2 hsub (fun i hi' => deleteHostInfo_none i hi') hpdm⟩
       · simp only [hf, if_false]
-        exact ⟨srn _ rfl rfl rfl rfl, inv.shrink ⟨rfl, rfl, rfl⟩ rfl hdl.2 hsub (fun i hi' => deleteHostInfo_none i hi')⟩
+        exact ⟨srn _ rfl rfl rfl rfl, inv.shrink ⟨rfl, rfl, rfl⟩ rfl hdl.2 hsub (fun i hi' => deleteHostInfo_none i hi') hpdm⟩
     | swapPrimary =>
       simp only []
       have hmp := makePrimary_list inv.wf hj
@@ -438,12 +471,12 @@ theorem check_sim {n : Node} {a : Addr} {sd peer : Side} (inv : NInv n a) (sr : 
         rw [hlist, sr.tun]; simp [map_eraseIdx_abs]
       · intro h hm; exact hpdl h (hsub h hm)
       · exact inv.shrink ⟨rfl, rfl, rfl⟩ rfl hmp.2 hsub
-          (fun i hi' => by show alookup i (n.main.makePrimary hi).indexes = none; rw [makePrimary_indexes]; exact hi')
+          (fun i hi' => by show alookup i (n.main.makePrimary hi).indexes = none; rw [makePrimary_indexes]; exact hi') hpdm
     | tryRehandshake =>
       simp only []
       have base : SR { n with pdl := markB o.pd n.pdl hi.id } a { sd with pdl := markA o.pd sd.pdl (absTun hi) } ∧
           NInv { n with pdl := markB o.pd n.pdl hi.id } a :=
-        ⟨⟨sr.tun, sr.pend, hpdl, sr.addr⟩, inv.shrink ⟨rfl, rfl, rfl⟩ rfl inv.wf (fun _ h => h) (fun _ h => h)⟩
+        ⟨⟨sr.tun, sr.pend, hpdl, sr.addr⟩, inv.shrink ⟨rfl, rfl, rfl⟩ rfl inv.wf (fun _ h => h) (fun _ h => h) hpdm⟩
       have hhd : hi.vpnAddrs.headD 0 = a := by rw [hva]; rfl
       split
       · rw [hhd]
@@ -452,12 +485,12 @@ theorem check_sim {n : Node} {a : Addr} {sd peer : Side} (inv : NInv n a) (sr : 
       · exact base
     | migrateRelays =>
       simp only []
-      exact ⟨⟨sr.tun, sr.pend, hpdl, sr.addr⟩, inv.shrink ⟨rfl, rfl, rfl⟩ rfl inv.wf (fun _ h => h) (fun _ h => h)⟩
+      exact ⟨⟨sr.tun, sr.pend, hpdl, sr.addr⟩, inv.shrink ⟨rfl, rfl, rfl⟩ rfl inv.wf (fun _ h => h) (fun _ h => h) hpdm⟩
     | sendTestPacket =>
       simp only []
-      exact ⟨⟨sr.tun, sr.pend, hpdl, sr.addr⟩, inv.shrink ⟨rfl, rfl, rfl⟩ rfl inv.wf (fun _ h => h) (fun _ h => h)⟩
+      exact ⟨⟨sr.tun, sr.pend, hpdl, sr.addr⟩, inv.shrink ⟨rfl, rfl, rfl⟩ rfl inv.wf (fun _ h => h) (fun _ h => h) hpdm⟩
     | doNothing =>
       simp only []
-      exact ⟨⟨sr.tun, sr.pend, hpdl, sr.addr⟩, inv.shrink ⟨rfl, rfl, rfl⟩ rfl inv.wf (fun _ h => h) (fun _ h => h)⟩
+      exact ⟨⟨sr.tun, sr.pend, hpdl, sr.addr⟩, inv.shrink ⟨rfl, rfl, rfl⟩ rfl inv.wf (fun _ h => h) (fun _ h => h) hpdm⟩
 
 end Nebula.Lemmas.HsSim
